@@ -1,8 +1,8 @@
-* quick tier: scrub/dry shape: one data reader + one parity reader, no writers, 4 slots
+\* quick tier: scrub/dry shape: two data readers + one parity reader, no writers, 3 slots
 SPECIFICATION FairSpec
 CONSTANTS
-  N = 4
-  RD = 1
+  N = 3
+  RD = 2
   RP = 1
   W = 0
   BlockStart = 0
